@@ -103,7 +103,9 @@ func Start(t testing.TB, property string) *Run {
 	if r.Scratch == "" {
 		r.Scratch = filepath.Join(os.TempDir(), fmt.Sprintf("verif-scratch-%d", os.Getpid()))
 	}
-	r.Scratch = filepath.Join(r.Scratch, fmt.Sprintf("%s-s%d", property, r.Shard))
+	// fixed-length name: the location of the scratch directory must not differ in depth or name lengths
+	// between shards, confirmation lanes and later replays (see runShardLane in the driver)
+	r.Scratch = filepath.Join(r.Scratch, fmt.Sprintf("%s-s%02d", property, r.Shard%100))
 	_ = os.MkdirAll(r.Scratch, 0o700)
 	if v := os.Getenv("VERIF_DEADLINE"); v != "" {
 		if n, err := strconv.ParseInt(v, 10, 64); err == nil {
